@@ -203,7 +203,9 @@ def templates(rnd):
     # are those of a contiguous segment and the reader accepts them)
     for _ in range(2):
         objs = [chan("s", 0x20, rnd.randint(2, 6), rnd.randint(2, 12))]
-        out.append(("interleaved flag, lone string channel", [seg(objs, [[values(o) for o in objs] for _ in range(rnd.randint(1, 2))], interleaved=True)]))
+        # (encoded as a contiguous segment — for one channel the bytes are the same — and the flag set in the lead-in afterwards: the
+        # spec encoder does not lay out interleaved strings)
+        out.append(("interleaved flag, lone string channel", [seg(objs, [[values(o) for o in objs] for _ in range(rnd.randint(1, 2))], interleaved=False)]))
     # data segment followed by a metadata-only segment / by a segment without metadata
     objs = [chan("i", 3, 2), chan("d", 10, 1)]
     first = seg(objs, [[values(o) for o in objs] for _ in range(2)], big=False)
@@ -245,10 +247,13 @@ def run(ctx):
         for label, segs in templates(ctx.rnd):
             e = model.ask(gen_files.to_line(segs))
             tmodel = model
-            if e.get("ok") and not e.get("wf") and label.startswith("interleaved flag"):
+            if e.get("ok") and e.get("wf") and label.startswith("interleaved flag"):
                 # outside the spec's well-formed files (strings cannot be interleaved) but read by the reader: the cut-file oracle
                 # (prefix of the complete read) applies on the real code alone, without the model
                 tmodel = None
+                b_ = bytearray(bytes.fromhex(e["file"]))
+                b_[4] |= 0x20           # kTocInterleavedData in the (single) segment's ToC mask
+                e = dict(e, file=bytes(b_).hex())
             elif not e.get("ok") or not e.get("wf"):
                 ctx.notes.append("template %r is not a well-formed encoding: %s" % (label, str(e)[:80]))
                 continue
@@ -286,7 +291,7 @@ def run(ctx):
             nontrivial += 1
         if len(samples) < 2 and len(data) < 300:
             samples.append(dict(encoding=gen_files.to_line(segs), cuts="4..%d" % len(data)))
-        if len(violations) >= 5 or len(disagreements) >= 20:
+        if len(violations) >= 5 or len(disagreements) >= ctx.dis_limit:
             break
         if ctx.tier == "quick" and ctx.elapsed() > 45:
             ctx.notes.append("stopped after %d files (time budget)" % stats["files"])
